@@ -520,7 +520,7 @@ def eval_live(w, q):
 
 def _install_pickled(w, defs):
     """Replace the literal value of the chosen integer references by an object that export has to
-    pickle (numpy.int64 is not one of the literal types; it behaves like the integer)."""
+    pickle (numpy.int64 and IntEnum members are not literals; they behave like the integer)."""
     import importlib
     import numpy as np
     # module-valued model-level references (not part of D: no op of the oracle's grammar reads
@@ -529,12 +529,23 @@ def _install_pickled(w, defs):
     for mod in defs["deco"].get("modules", []):
         setattr(w.m, mod, importlib.import_module(mod))
     refs = {tuple(p): rs for p, rs in defs["refs"]}
-    for p, n in defs["deco"]["pickled"]:
+    import signal
+
+    def obj(v, i):
+        # every second one: an instance of a SUBCLASS of int (a member of the standard library's
+        # IntEnum signal.Signals) -- not a literal either: type(value) is not int
+        if i % 2 == 1:
+            try:
+                return signal.Signals(v)
+            except ValueError:
+                pass
+        return np.int64(v)
+    for i, (p, n) in enumerate(defs["deco"]["pickled"]):
         if p:
             r = refs[tuple(p)][n]
-            w.space(p).set_ref(n, np.int64(r["v"][1]), r["mode"])
+            w.space(p).set_ref(n, obj(r["v"][1], i), r["mode"])
         else:
-            setattr(w.m, n, np.int64(defs["grefs"][n]["v"][1]))
+            setattr(w.m, n, obj(defs["grefs"][n]["v"][1], i))
 
 
 def build_export(defs, variant, outdir, pkg, want_live=True, rng=None, queries=None):
